@@ -31,10 +31,7 @@ def ilist(a):
 
 
 def call(fn, *a, **k):
-    try:
-        return fn(*a, **k)
-    except Exception as e:
-        return 'raise:' + type(e).__name__
+    return core.guarded(fn, *a, **k)
 
 
 def hht_record(emd, F, A, edges, p, kind='hht', scale=1.0):
